@@ -13,10 +13,11 @@ NOT_BUILT = "check not built yet (in progress; see DESIGN.md section 3 for the p
 def main():
     props = [json.loads(l) for l in open(os.path.join(HERE, "properties.jsonl"))]
     checks, na = [], []
+    accepted = set(open(os.path.join(HERE, "vt", "accepted.txt")).read().split())
     for p in props:
         pid = p["id"]
         path = os.path.join(HERE, "vt", "checks", pid.lower() + ".py")
-        if not os.path.exists(path):
+        if not os.path.exists(path) or pid not in accepted:
             na.append({"property_id": pid, "reason": NOT_BUILT})
             continue
         mod = importlib.import_module("vt.checks." + pid.lower())
